@@ -663,11 +663,10 @@ theorem rt_unmarshalSimple (code : UInt8) (mk : Bytes → EapData) (d : Bytes) (
   go_steps
   simp
 
-/-- **EAP round trip** (the form the message-level proof uses) -/
-theorem rt_eap_payload (e : Eap) (bs : Bytes) (hd : DomEap e) (h : marshalEap e = .ok bs) :
-    unmarshalEap bs = .ok e := by
+/-- EAP round trip for every code octet: only the method data and the total size matter -/
+theorem rt_eap_anycode (e : Eap) (bs : Bytes) (hdd : DomEapData e.data) (hsz : 4 + eapDataSize e.data ≤ 65535)
+    (h : marshalEap e = .ok bs) : unmarshalEap bs = .ok e := by
   obtain ⟨td, hm, rfl⟩ := marshalEap_eq e bs h
-  obtain ⟨_, hdd, hsz⟩ := hd
   have hsize := marshalEapData_size _ _ hm
   have hl : (UInt16.ofNat (4 + td.length)).toNat = 4 + td.length := ofNat_toNat_u16 _ (by omega)
   obtain ⟨code, ident, data⟩ := e
@@ -754,6 +753,38 @@ theorem rt_eap_payload (e : Eap) (bs : Bytes) (hd : DomEap e) (h : marshalEap e 
         simp only [Res.ok.injEq] at hm; subst hm; simp
       rw [hty, if_neg (by decide), if_neg (by decide), if_neg (by decide), if_pos (by decide), hu]
       rfl
+
+/-- **EAP round trip** (the form the message-level proof uses) -/
+theorem rt_eap_payload (e : Eap) (bs : Bytes) (hd : DomEap e) (h : marshalEap e = .ok bs) :
+    unmarshalEap bs = .ok e :=
+  rt_eap_anycode e bs hd.2.1 hd.2.2 h
+
+/-- whatever the attribute loop returns is sorted when the accumulator was -/
+theorem unmarshalAkaAttrs_sorted (r : Bytes) (acc l : List AkaAttr) (hs : AkaSorted acc)
+    (h : unmarshalAkaAttrs r acc = .ok l) : AkaSorted l := by
+  fun_induction unmarshalAkaAttrs r acc with
+  | case1 acc => simp only [Res.ok.injEq] at h; exact h ▸ hs
+  | case2 acc _ => simp only [Res.ok.injEq] at h; exact h ▸ hs
+  | case3 acc t len body a n hp hn ih => exact ih (akaInsert_sorted _ _ hs) h
+  | case4 => simp at h
+  | case5 => simp at h
+  | case6 => simp at h
+
+/-- a decoded EAP-AKA' packet keeps its attributes sorted by type with unique keys -/
+theorem unmarshalAka_sorted (raw : Bytes) (a : Aka) (h : unmarshalAka raw = .ok a) : AkaSorted a.attrs := by
+  unfold unmarshalAka at h
+  split at h
+  · simp at h
+  · obtain ⟨c, _, h⟩ := Res.bind_eq_ok h
+    split at h
+    · simp at h
+    · obtain ⟨st, _, h⟩ := Res.bind_eq_ok h
+      obtain ⟨rs, _, h⟩ := Res.bind_eq_ok h
+      obtain ⟨rest, _, h⟩ := Res.bind_eq_ok h
+      obtain ⟨attrs, ha, h⟩ := Res.bind_eq_ok h
+      simp only [Res.ok.injEq] at h
+      subst h
+      exact unmarshalAkaAttrs_sorted _ _ _ List.Pairwise.nil ha
 
 /-! ### shape of a built attribute; reachability; automatic size bound -/
 
@@ -942,5 +973,262 @@ theorem marshalEap_aka_eq_spec (code ident : UInt8) (a : Aka) (hb : AkaBuilt a) 
   simp only [marshalEapData, marshalAka, Res.bind_ok, h0]
   rw [marshalAkaAttrs_eq_spec _ hall]
   simp [Spec.encodeEapAka, Spec.encodeEapFrame, Spec.encodeAka, put16, Facts.eapTypeAkaPrime]
+
+/-! ### AT_MAC (C15) -/
+
+/-- AT_MAC as `initMAC` stores it: 16 zero octets -/
+def akaZeroMacAttr : AkaAttr := ⟨Facts.atMac, 5, 0, zeros 16⟩
+
+/-- the packet with AT_MAC := 0¹⁶ (inserted if absent, overwritten if present) -/
+def akaZeroMac (a : Aka) : Aka := { a with attrs := akaInsert a.attrs akaZeroMacAttr }
+
+theorem akaInitMac_eq (a : Aka) : akaInitMac a = .ok (akaZeroMac a) := by
+  unfold akaInitMac akaSetAttr
+  rw [akaMkAttr_fixed16 _ _ (Or.inr (Or.inr rfl)) (by simp)]
+  rfl
+
+theorem akaValOk_mac (m : Bytes) (h : m.length = 16) : AkaValOk Facts.atMac m :=
+  Or.inl ⟨Or.inr (Or.inr rfl), h⟩
+
+theorem akaZeroMac_built {a : Aka} (hb : AkaBuilt a) : AkaBuilt (akaZeroMac a) :=
+  akaBuilt_set hb (akaValOk_mac (zeros 16) (by simp)) (akaInitMac_eq a)
+
+/-- wire form of an EAP-AKA' packet (what `EAP.Marshal` returns; it cannot fail) -/
+def eapAkaWire (code ident : UInt8) (a : Aka) : Bytes :=
+  [code, ident] ++ put16 (UInt16.ofNat (4 + (4 + (marshalAkaAttrs a.attrs).length))) ++
+    ([Facts.eapTypeAkaPrime, a.subtype] ++ put16 a.reserved ++ marshalAkaAttrs a.attrs)
+
+theorem marshalEap_aka (code ident : UInt8) (a : Aka) :
+    marshalEap ⟨code, ident, .aka a⟩ = .ok (eapAkaWire code ident a) := by
+  unfold marshalEap eapAkaWire
+  simp only [marshalEapData, marshalAka, Res.bind_ok]
+  have : ([Facts.eapTypeAkaPrime, a.subtype] ++ put16 a.reserved ++ marshalAkaAttrs a.attrs).length
+      = 4 + (marshalAkaAttrs a.attrs).length := by simp; omega
+  rw [this]
+
+/-- `CalcEapAkaPrimeAtMAC` on an EAP-AKA' packet, in closed form -/
+theorem calcEapAkaPrimeAtMAC_aka (P : Prims) (code ident : UInt8) (a : Aka) (key : Bytes) :
+    calcEapAkaPrimeAtMAC P ⟨code, ident, .aka a⟩ key =
+      (⟨code, ident, .aka (akaZeroMac a)⟩,
+       .ok ((P.mac 2 key (eapAkaWire code ident (akaZeroMac a))).take 16)) := by
+  unfold calcEapAkaPrimeAtMAC
+  simp only [akaInitMac_eq, marshalEap_aka]
+
+/-- storing any AT_MAC first does not change the zero-MAC packet -/
+theorem akaZeroMac_setMac (a : Aka) (x : AkaAttr) (hx : x.atype = Facts.atMac) :
+    akaZeroMac { a with attrs := akaInsert a.attrs x } = akaZeroMac a := by
+  unfold akaZeroMac
+  simp only
+  rw [akaInsert_insert_same _ _ _ (by rw [hx]; rfl)]
+
+/-- `marshalEap` is injective on the domain (it has a left inverse) -/
+theorem marshalEap_inj {e1 e2 : Eap} {bs : Bytes} (h1 : DomEap e1) (h2 : DomEap e2)
+    (m1 : marshalEap e1 = .ok bs) (m2 : marshalEap e2 = .ok bs) : e1 = e2 := by
+  have r1 := rt_eap_payload e1 bs h1 m1
+  have r2 := rt_eap_payload e2 bs h2 m2
+  rw [r1] at r2
+  simpa using r2
+
+/-! #### the RFC 5448 §3.4 input (`Spec.zeroMac`) of the wire form of a built packet -/
+
+def akaZeroIfMac (x : AkaAttr) : AkaAttr :=
+  if x.atype == Facts.atMac then { x with value := zeros 16 } else x
+
+theorem akaZeroIfMac_mac {x : AkaAttr} (hb : AkaAttrBuilt x) (ht : x.atype = Facts.atMac) :
+    akaZeroIfMac x = akaZeroMacAttr ∧ ∃ v, v.length = 16 ∧ x = ⟨Facts.atMac, 5, 0, v⟩ := by
+  rcases akaAttrBuilt_cases hb with ⟨t, v, _, hv, rfl⟩ | ⟨t, v, ht', _, _, rfl⟩ | ⟨v, _, rfl⟩ | ⟨v, _, _, rfl⟩
+  · dsimp only at ht; subst ht
+    exact ⟨by simp [akaZeroIfMac, akaZeroMacAttr], v, hv, rfl⟩
+  · dsimp only at ht; subst ht; rcases ht' with h | h <;> exact absurd h (by decide)
+  · dsimp only at ht; exact absurd ht (by decide)
+  · dsimp only at ht; exact absurd ht (by decide)
+
+theorem akaZeroIfMac_other {x : AkaAttr} (ht : x.atype ≠ Facts.atMac) : akaZeroIfMac x = x := by
+  unfold akaZeroIfMac
+  rw [if_neg (by simpa using ht)]
+
+theorem akaZeroIfMac_map_other (l : List AkaAttr) (h : ∀ x ∈ l, x.atype ≠ Facts.atMac) :
+    l.map akaZeroIfMac = l := by
+  induction l with
+  | nil => rfl
+  | cons x rest ih =>
+    rw [List.map_cons, akaZeroIfMac_other (h x (by simp)), ih (fun y hy => h y (by simp [hy]))]
+
+/-- in a built list that carries AT_MAC, zeroing the MAC value in place is the same as
+`initMAC` (store 0¹⁶ under the key) -/
+theorem akaZeroIfMac_map_eq_insert (l : List AkaAttr) (hs : AkaSorted l) (hb : ∀ x ∈ l, AkaAttrBuilt x)
+    (hm : ∃ x ∈ l, x.atype = Facts.atMac) : l.map akaZeroIfMac = akaInsert l akaZeroMacAttr := by
+  induction l with
+  | nil => obtain ⟨x, hx, _⟩ := hm; simp at hx
+  | cons h rest ih =>
+    unfold AkaSorted at hs
+    rw [List.pairwise_cons] at hs
+    by_cases hh : h.atype = Facts.atMac
+    · have hz := (akaZeroIfMac_mac (hb h (by simp)) hh).1
+      have hrest : rest.map akaZeroIfMac = rest := by
+        apply akaZeroIfMac_map_other
+        intro y hy hy'
+        have := hs.1 y hy
+        rw [hh, hy', UInt8.lt_iff_toNat_lt] at this
+        omega
+      rw [List.map_cons, hz, hrest, akaInsert]
+      have c1 : ¬ akaZeroMacAttr.atype < h.atype := by
+        rw [hh]; show ¬ Facts.atMac < Facts.atMac; decide
+      have c2 : (akaZeroMacAttr.atype == h.atype) = true := by rw [hh]; rfl
+      rw [if_neg c1, if_pos c2]
+    · obtain ⟨x, hx, hxm⟩ := hm
+      have hxr : x ∈ rest := by
+        simp at hx
+        rcases hx with rfl | hx
+        · exact absurd hxm hh
+        · exact hx
+      have hlt := hs.1 x hxr
+      rw [hxm] at hlt
+      have c1 : ¬ akaZeroMacAttr.atype < h.atype := by
+        show ¬ Facts.atMac < h.atype
+        rw [UInt8.lt_iff_toNat_lt] at hlt ⊢; omega
+      have c2 : ¬ (akaZeroMacAttr.atype == h.atype) = true := by
+        intro hc
+        have : akaZeroMacAttr.atype = h.atype := by simpa using hc
+        exact hh this.symm
+      rw [List.map_cons, akaZeroIfMac_other hh, akaInsert, if_neg c1, if_neg c2,
+        ih hs.2 (fun y hy => hb y (by simp [hy])) ⟨x, hxr, hxm⟩]
+
+theorem akaLookup_some_mem {l : List AkaAttr} {t : UInt8} {x : AkaAttr} (h : akaLookup l t = some x) :
+    x ∈ l ∧ x.atype = t := by
+  induction l with
+  | nil => simp [akaLookup] at h
+  | cons y rest ih =>
+    unfold akaLookup at h
+    by_cases c : (y.atype == t) = true
+    · rw [if_pos c] at h
+      simp only [Option.some.injEq] at h; subst h
+      exact ⟨by simp, by simpa using c⟩
+    · rw [if_neg c] at h
+      obtain ⟨h1, h2⟩ := ih h
+      exact ⟨by simp [h1], h2⟩
+
+theorem marshalAkaAttr_zeroIfMac_length {x : AkaAttr} (hb : AkaAttrBuilt x) :
+    (marshalAkaAttr (akaZeroIfMac x)).length = (marshalAkaAttr x).length := by
+  by_cases ht : x.atype = Facts.atMac
+  · obtain ⟨hz, v, hv, rfl⟩ := akaZeroIfMac_mac hb ht
+    rw [hz]
+    simp [marshalAkaAttr, akaZeroMacAttr, Facts.atMac, Facts.atKdf, Facts.atRes, Facts.atKdfInput, hv]
+  · rw [akaZeroIfMac_other ht]
+
+theorem marshalAkaAttrs_zeroIfMac_length (l : List AkaAttr) (hb : ∀ x ∈ l, AkaAttrBuilt x) :
+    (marshalAkaAttrs (l.map akaZeroIfMac)).length = (marshalAkaAttrs l).length := by
+  induction l with
+  | nil => rfl
+  | cons x rest ih =>
+    simp only [List.map_cons, marshalAkaAttrs, List.length_append]
+    rw [marshalAkaAttr_zeroIfMac_length (hb x (by simp)), ih (fun y hy => hb y (by simp [hy]))]
+
+theorem marshalAkaAttrs_length_ge (l : List AkaAttr) (hb : ∀ x ∈ l, AkaAttrBuilt x) :
+    l.length ≤ (marshalAkaAttrs l).length := by
+  induction l with
+  | nil => simp
+  | cons x rest ih =>
+    have := marshalAkaAttr_length (hb x (by simp))
+    have := ih (fun y hy => hb y (by simp [hy]))
+    simp only [marshalAkaAttrs, List.length_append, List.length_cons]
+    omega
+
+/-- the RFC attribute walk over the emission of built attributes (any order) zeroes exactly
+the MAC values and reports whether AT_MAC occurred -/
+theorem zeroMacAttrs_marshal (l : List AkaAttr) (hb : ∀ x ∈ l, AkaAttrBuilt x) (fuel : Nat)
+    (hf : l.length < fuel) :
+    Spec.zeroMacAttrs fuel (marshalAkaAttrs l) =
+      some (marshalAkaAttrs (l.map akaZeroIfMac), l.any (fun x => x.atype == Facts.atMac)) := by
+  induction l generalizing fuel with
+  | nil =>
+    cases fuel with
+    | zero => simp at hf
+    | succ f => simp [marshalAkaAttrs, Spec.zeroMacAttrs]
+  | cons x rest ih =>
+    cases fuel with
+    | zero => simp at hf
+    | succ f =>
+      have hx := hb x (by simp)
+      obtain ⟨body, hm, _⟩ := parseAkaBody_marshal x hx
+      obtain ⟨hlen, hw1⟩ := marshalAkaAttr_length hx
+      have hbl : body.length = 4 * x.length.toNat - 2 := by
+        rw [hm] at hlen; simp at hlen; omega
+      have ihr := ih (fun y hy => hb y (by simp [hy])) f (by simp at hf; omega)
+      rw [marshalAkaAttrs, hm]
+      simp only [List.cons_append]
+      rw [Spec.zeroMacAttrs]
+      have hw0 : ¬ (x.length == 0) = true := by
+        intro h
+        have : x.length = 0 := by simpa using h
+        rw [this] at hw1
+        have : (0 : UInt8).toNat = 0 := rfl
+        omega
+      have c0 : ¬ ((x.length == 0 || decide (4 * x.length.toNat - 2 > (body ++ marshalAkaAttrs rest).length)) = true) := by
+        simp only [Bool.or_eq_true, decide_eq_true_eq, not_or]
+        exact ⟨hw0, by rw [List.length_append]; omega⟩
+      rw [if_neg c0, ← hbl, List.drop_left, ihr]
+      dsimp only
+      by_cases ht : x.atype = Facts.atMac
+      · obtain ⟨hz, v, hv, rfl⟩ := akaZeroIfMac_mac hx ht
+        have hbody : body = put16 0 ++ v := by
+          have := (parse_marshal_fixed16 Facts.atMac v [] (Or.inr (Or.inr rfl)) hv).1
+          rw [this] at hm
+          simpa using hm.symm
+        subst hbody
+        dsimp only
+        rw [if_pos (by decide), if_neg (by decide)]
+        rw [List.map_cons, hz, marshalAkaAttrs]
+        simp [akaZeroMacAttr, marshalAkaAttr, Facts.atMac, Facts.atKdf, Facts.atRes, Facts.atKdfInput, put16]
+      · have c1 : ¬ (x.atype == 11) = true := by
+          intro h; apply ht; simpa [Facts.atMac] using h
+        rw [if_neg c1, List.take_left, List.map_cons, akaZeroIfMac_other ht, marshalAkaAttrs, hm]
+        have : (x.atype == Facts.atMac) = false := by simpa using ht
+        simp [this]
+
+/-- `Spec.zeroMac` of the wire form of a built packet that carries AT_MAC is the wire form of
+the packet with AT_MAC := 0¹⁶ -/
+theorem zeroMac_wire (code ident : UInt8) (a : Aka) (hb : AkaBuilt a)
+    (hm : ∃ x ∈ a.attrs, x.atype = Facts.atMac) :
+    Spec.zeroMac (eapAkaWire code ident a) = some (eapAkaWire code ident (akaZeroMac a)) := by
+  obtain ⟨h0, hs, hall⟩ := hb
+  have hsz := akaBuilt_size ⟨h0, hs, hall⟩
+  simp only [eapDataSize] at hsz
+  have hmap := akaZeroIfMac_map_eq_insert a.attrs hs hall hm
+  have hlen := marshalAkaAttrs_zeroIfMac_length a.attrs hall
+  have hge := marshalAkaAttrs_length_ge a.attrs hall
+  have hany : a.attrs.any (fun x => x.atype == Facts.atMac) = true := by
+    obtain ⟨x, hx, hxm⟩ := hm
+    rw [List.any_eq_true]
+    exact ⟨x, hx, by simpa using hxm⟩
+  have hl : (UInt16.ofNat (4 + (4 + (marshalAkaAttrs a.attrs).length))).toNat
+      = 4 + (4 + (marshalAkaAttrs a.attrs).length) := ofNat_toNat_u16 _ (by omega)
+  unfold akaZeroMac
+  unfold eapAkaWire
+  dsimp only
+  rw [← hmap, hlen]
+  generalize UInt16.ofNat (4 + (4 + (marshalAkaAttrs a.attrs).length)) = pl at *
+  have hwl : ([code, ident] ++ put16 pl ++ ([Facts.eapTypeAkaPrime, a.subtype] ++ put16 a.reserved ++
+      marshalAkaAttrs a.attrs)).length = 8 + (marshalAkaAttrs a.attrs).length := by simp; omega
+  unfold Spec.zeroMac
+  rw [if_neg (by rw [hwl]; omega)]
+  have hb2 : (byteAt ([code, ident] ++ put16 pl ++ ([Facts.eapTypeAkaPrime, a.subtype] ++ put16 a.reserved ++
+      marshalAkaAttrs a.attrs)) 2).toNat * 256 + (byteAt ([code, ident] ++ put16 pl ++
+      ([Facts.eapTypeAkaPrime, a.subtype] ++ put16 a.reserved ++ marshalAkaAttrs a.attrs)) 3).toNat =
+      pl.toNat := by
+    have := pl.toNat_lt
+    simp [put16, UInt8.toNat_ofNat']
+    omega
+  rw [hb2, hwl, if_neg (by omega)]
+  have hb4 : byteAt ([code, ident] ++ put16 pl ++ ([Facts.eapTypeAkaPrime, a.subtype] ++ put16 a.reserved ++
+      marshalAkaAttrs a.attrs)) 4 = 50 := by simp [put16, Facts.eapTypeAkaPrime]
+  rw [if_neg (by rw [hb4]; simp)]
+  have hdrop : List.drop 8 ([code, ident] ++ put16 pl ++ ([Facts.eapTypeAkaPrime, a.subtype] ++ put16 a.reserved ++
+      marshalAkaAttrs a.attrs)) = marshalAkaAttrs a.attrs := by simp [put16]
+  have htake : List.take 8 ([code, ident] ++ put16 pl ++ ([Facts.eapTypeAkaPrime, a.subtype] ++ put16 a.reserved ++
+      marshalAkaAttrs a.attrs)) = [code, ident] ++ put16 pl ++ ([Facts.eapTypeAkaPrime, a.subtype] ++ put16 a.reserved) := by
+    simp [put16]
+  rw [hdrop, htake, zeroMacAttrs_marshal _ hall _ (by omega), hany]
+  simp
 
 end Ike
